@@ -97,6 +97,9 @@ def warm_tables():
     _index_ops()
     write_ops()
     ops_of_tool(None)
+    iter_lines()
+    ops_of_class(None)
+    ops_by_iter_line()
 
 
 def gen_directed(seed, rng):
@@ -136,7 +139,7 @@ def gen_directed(seed, rng):
         threads.append([rng.choice(pool) if rng.random() < 0.7 else rng.choice(names)])
     for prog in threads:
         if rng.random() < 0.3:
-            prog.append(rng.choice(names))
+            prog.append(rng.choice(core.Z.sensitive) if core.Z.sensitive and rng.random() < 0.4 else rng.choice(names))
     rng.shuffle(threads)
     return {
         "seed": seed,
@@ -207,8 +210,13 @@ def gen_write_directed(seed, rng):
     anyop = [o.name for o in core.Z.ops if not o.needs]
     n = rng.choice([2, 2, 3, 4])
     threads = [[a]]
+    sens_peers = [nm for nm in peers if nm in set(core.Z.sensitive)]
     for _ in range(n - 1):
-        threads.append([rng.choice(peers) if rng.random() < 0.8 else rng.choice(anyop)])
+        r = rng.random()
+        if sens_peers and r < 0.4:
+            threads.append([rng.choice(sens_peers)])
+        else:
+            threads.append([rng.choice(peers) if r < 0.85 else rng.choice(anyop)])
     warm = []
     if rng.random() < 0.5:
         warm = [nm for prog in threads for nm in prog]
@@ -229,9 +237,81 @@ def gen_write_directed(seed, rng):
     }
 
 
+_iter_lines = set()
+_ck_ops = {}
+
+
+def iter_lines():
+    if not _iter_lines:
+        _iter_lines.update(S.iteration_lines(codes_for("all")))
+    return _iter_lines
+
+
+def ops_of_class(ck):
+    if not _ck_ops:
+        for op in core.Z.ops:
+            if op.ck and not op.needs:
+                _ck_ops.setdefault(op.ck, []).append(op.name)
+    return _ck_ops.get(ck, [])
+
+
+_line_ops = {}
+
+
+def ops_by_iter_line():
+    """iteration line -> calls (about some class) that execute it."""
+    if not _line_ops and core.Z.cov:
+        il = iter_lines()
+        for op in core.Z.ops:
+            if op.ck and not op.needs:
+                for loc in core.Z.cov.get(op.name, frozenset()) & il:
+                    _line_ops.setdefault(loc, []).append(op.name)
+    return _line_ops
+
+
+def gen_iteration_directed(seed, rng):
+    """A call is pre-empted inside a loop over an attribute-held container while another call about the
+    same class (another kind of call, so another code path) runs to completion. The loop line is drawn
+    first, so rarely executed loops get the same share of runs as common ones."""
+    table = ops_by_iter_line()
+    if not table:
+        return None
+    h = rng.choice(sorted(table))
+    a = core.Z.op_by_name[rng.choice(table[h])]
+    hot = [h]
+    peers = ops_of_class(a.ck)
+    other_kind = [nm for nm in peers if core.Z.op_by_name[nm].kind != a.kind]
+    n = rng.choice([2, 2, 3])
+    threads = [[a.name]]
+    for _ in range(n - 1):
+        pool = other_kind if other_kind and rng.random() < 0.7 else peers
+        threads.append([rng.choice(pool)])
+    warm = [nm for prog in threads for nm in prog] if rng.random() < 0.3 else []
+    rng.shuffle(threads)
+    return {
+        "seed": seed,
+        "threads": threads,
+        "warmup": warm,
+        "shared_tools": rng.random() < 0.7,
+        "mode": "hotonly",
+        "opcode": False,
+        "hot": hot,
+        "p_hot": rng.choice([0.5, 1.0, 1.0]),
+        "hot_skip": rng.choice([0, 1, 1, 2, 3, 5]),
+        "p": 0.0,
+        "loc_cap": rng.choice([1, 2]),
+        "max_switches": rng.choice([2, 4, 8]),
+        "strategy": "iteration-directed",
+    }
+
+
 def gen_spec(seed):
     """Everything about a run except the schedule, which the seeded scheduler decides on the fly."""
     rng = random.Random(seed)
+    if core.Z.cov and rng.random() < 0.2:
+        spec = gen_iteration_directed(seed, rng)
+        if spec:
+            return spec
     if core.Z.cov_writes and write_ops() and rng.random() < 0.3:
         spec = gen_write_directed(seed, rng)
         if spec:
@@ -272,6 +352,10 @@ def gen_spec(seed):
     warm = []
     if rng.random() < 0.35 and early:
         warm = [rng.choice(early).name for _ in range(rng.choice([1, 2, 3]))]
+    if core.Z.sensitive and rng.random() < 0.35:
+        # a victim whose result is easy to disturb (lenient conversions, logged leftovers)
+        t = rng.randrange(n)
+        threads[t].insert(rng.randrange(len(threads[t]) + 1), rng.choice(core.Z.sensitive))
     mode, opcode = rng.choice(MODES)
     # conflict-directed pre-emption: lines (of the traced code set) that the calls of at least two
     # different threads execute, according to the per-call line coverage of the reference pass
@@ -347,6 +431,7 @@ def run_spec(spec, R, timeout=20.0):
         step_cap=spec.get("step_cap", 3_000_000),
         hot=spec.get("hot", ()),
         p_hot=spec.get("p_hot", 0.9),
+        hot_skip=spec.get("hot_skip", 0),
     )
 
     S.install_sim_locks(sch)
